@@ -72,8 +72,13 @@ impl Builder {
 
         let reader: super::DynReader = match compression_method {
             Some(CompressionMethod::Bgzf) => {
+                // More decompression workers than cores cannot help, and spawning an absurd
+                // number of them exhausts memory and aborts the process
+                let max_threads =
+                    std::thread::available_parallelism().unwrap_or(NonZeroUsize::MIN);
+
                 let bgzf_reader = bgzf::reader::Builder::default()
-                    .set_worker_count(self.threads)
+                    .set_worker_count(self.threads.min(max_threads))
                     .build_from_reader(reader);
 
                 match format {
